@@ -286,10 +286,7 @@ def main(tier, replay=None):
     drv, l1 = vf.ocaml_build(AREA) if os.path.exists(os.path.join(vf.coq_dir(AREA), "ocaml", "model.ml")) else (None, "extraction did not run")
     if drv is None:
         chk.broke("extracted model driver does not build", l1)
-    himpl, l2 = vf.build_harness("c19_io.C")
-    for _ in range(3):      # the shared library cache is pruned by concurrent runs of other checks: rebuild and retry
-        if himpl is None and "libgivaro_verif.a" in l2 and "cannot find" in l2:
-            himpl, l2 = vf.build_harness("c19_io.C")
+    himpl, l2 = build_harness_private("c19_io.C")
     if himpl is None:
         chk.broke("implementation harness does not compile against /repo", l2)
         return chk.finish()
@@ -585,6 +582,50 @@ def main(tier, replay=None):
     chk.cov["rings"] = sorted(RINGS)
     chk.cov["maxCardinality_from_impl"] = maxc
     return chk.finish()
+
+
+def build_harness_private(src):
+    """vf.build_harness, except that the static library is copied next to the harness before linking: the shared
+    lib-* cache keeps only the 6 newest libraries and concurrent checks of other properties prune it while this
+    harness (30 s of template instantiation) is still compiling."""
+    import shutil
+    srcp = os.path.join(vf.ROOT, "harness", src)
+    key = vf.file_hash(vf.repo_sources() + [srcp], "private-lib")
+    name = os.path.splitext(src)[0]
+    d = vf.mkdir(os.path.join(vf.CACHE, "h-%s-%s" % (name, key)))
+    b = os.path.join(d, name)
+    if os.path.exists(b):
+        return b, ""
+    mylib = os.path.join(d, "libgivaro_verif.%d.a" % os.getpid())
+    log = ""
+    for _ in range(4):
+        lib, log = vf.build_repo_lib()
+        if lib is None:
+            return None, "library build failed:\n" + log
+        try:
+            shutil.copyfile(lib, mylib)
+            break
+        except OSError as ex:
+            log = "library vanished from the cache while copying: %s" % ex
+    else:
+        return None, log
+    tmpb = "%s.tmp%d" % (b, os.getpid())
+    cmd = [vf.CXX] + vf.BASE_FLAGS + vf.inc_flags() + ["-I" + os.path.join(vf.ROOT, "harness"), srcp, "-o", tmpb, mylib,
+                                                       "-lgmpxx", "-lgmp", "-lpthread"]
+    rc, out = vf.sh(cmd, timeout=900)
+    try:
+        os.remove(mylib)
+    except OSError:
+        pass
+    if rc != 0:
+        try:
+            os.remove(tmpb)
+        except OSError:
+            pass
+        return None, out
+    os.rename(tmpb, b)
+    vf.prune_cache("h-%s-" % name, keep=4)
+    return b, out
 
 
 def st(e, f):
